@@ -30,7 +30,38 @@ def all_keys():
     sandbox.setup()
     import vyxal.elements as E
 
-    return list(E.elements) + list(progs.MODIFIER_ARITY) + ["X", "x"]
+    return list(E.elements) + list(progs.MODIFIER_ARITY) + ["X", "x"] + noop_tokens()
+
+
+_NOOPS = []
+
+
+def _noops():
+    if not _NOOPS:
+        _NOOPS.append(set(noop_tokens()))   # on the pinned tree: newline, space and the digraph prefixes ∆ ø Þ ¨ k
+    return _NOOPS[0]
+
+
+def noop_tokens():
+    """code-page characters that are valid tokens but do nothing (line break, space, a digraph prefix that is not followed by a
+    second character, characters without an element): a branch may consist of nothing else"""
+    sandbox.setup()
+    import vyxal.elements as E
+    import vyxal.encoding as enc
+    from vyxal.lexer import Token, TokenType
+    from vyxal.parse import CLOSING_CHARACTERS, OPENING_CHARACTERS
+
+    out = []
+    for c in enc.codepage:
+        if c in E.elements or c in progs.MODIFIER_ARITY or c in OPENING_CHARACTERS or c in CLOSING_CHARACTERS or c in "Xx|":
+            continue
+        try:
+            toks = sandbox.tokenise(c + "|")
+        except Exception:  # noqa
+            continue
+        if toks and toks[0] == Token(TokenType.GENERAL, c):
+            out.append(c)
+    return out
 
 
 ESCAPE_ALPHABET = ["\\", "x", "u", "U", "N", "{", "}", "0", "4", "7", "8", "a", "n", '"', "'", "\n", " "]
@@ -73,8 +104,11 @@ def _ctx_shard(args):
     part = explore.Partial()
     for key in keys:
         kt = progs.key_text(key)
+        noop = key in _noops()
         for on, o in outer:
             for inn, it in inner:
+                if noop and (on[:1] in progs.MODIFIER_ARITY or inn[:1] in progs.MODIFIER_ARITY):
+                    continue  # a no-op token is not an element: it cannot be a modifier's operand (like a comment)
                 chains = [(on, inn)]
                 p = progs.fill(o, progs.fill(it, kt))
                 part.count()
